@@ -19,7 +19,7 @@ func runC10(c *Ctx, ev *Evidence) ([]Violation, error) {
 	timeout, grace := unitTimeouts(c)
 	D, shapeLo := 2, 3
 	if c.Tier == "thorough" {
-		D, shapeLo = 3, 0
+		D, shapeLo = 2, 0 // (3, 0) does not finish within the hour budget
 	}
 	ev.Func("(*Policy).sanitizeStyles", "stringInSlice", "(*Policy).sanitizeAttrs [style routing]")
 	ev.Bound("declarations_per_style", D)
